@@ -48,6 +48,13 @@ func genClaims() {
 			}
 			nSprintf++
 			lit, ok := ce.Args[0].(*ast.BasicLit)
+			if !ok {
+				// a named format: resolve a constant / variable initialised with a string literal
+				if id, isID := ce.Args[0].(*ast.Ident); isID {
+					lit = resolveStringLit(types, fd, id.Name)
+					ok = lit != nil
+				}
+			}
 			if !ok || lit.Kind != token.STRING {
 				format = "opaque"
 				return true
@@ -150,4 +157,53 @@ func splitFormat(f string) (verbs, seps []string) {
 	}
 	seps = append(seps, cur)
 	return
+}
+
+// resolveStringLit finds `name := "lit"` inside fd or a package-level `const/var name = "lit"`.
+func resolveStringLit(files []*ast.File, fd *ast.FuncDecl, name string) *ast.BasicLit {
+	var found *ast.BasicLit
+	n := 0
+	ast.Inspect(fd.Body, func(nd ast.Node) bool {
+		as, ok := nd.(*ast.AssignStmt)
+		if !ok || len(as.Lhs) != 1 || len(as.Rhs) != 1 {
+			return true
+		}
+		if id, ok := as.Lhs[0].(*ast.Ident); ok && id.Name == name {
+			n++
+			if bl, ok := as.Rhs[0].(*ast.BasicLit); ok {
+				found = bl
+			} else {
+				found = nil
+			}
+		}
+		return true
+	})
+	if n == 1 && found != nil {
+		return found
+	}
+	if n > 0 {
+		return nil // reassigned: not a fixed format
+	}
+	for _, f := range files {
+		for _, d := range f.Decls {
+			gd, ok := d.(*ast.GenDecl)
+			if !ok {
+				continue
+			}
+			for _, sp := range gd.Specs {
+				vs, ok := sp.(*ast.ValueSpec)
+				if !ok {
+					continue
+				}
+				for i, id := range vs.Names {
+					if id.Name == name && i < len(vs.Values) && gd.Tok == token.CONST {
+						if bl, ok := vs.Values[i].(*ast.BasicLit); ok {
+							return bl
+						}
+					}
+				}
+			}
+		}
+	}
+	return nil
 }
